@@ -72,6 +72,15 @@ type c01mon struct{ stats *sim.Stats }
 func (m c01mon) Check(s *sim.Sim, st *sim.Step) []*sim.Violation {
 	var vs []*sim.Violation
 	a, rec := st.Act, st.Rec
+	if rec.DecoyCalls > 0 {
+		// the credential this request carries was looked up / compared in ANOTHER instance's storage: whatever
+		// comes of it, it is not "a credential of that account" here
+		vs = append(vs, vio("C01", "credential-checked-against-another-instances-storage|"+a.Kind, "the request made %d backend calls on the second Authboss instance of the process (different storage, different modules) — a session issued by it would rest on that instance's accounts", rec.DecoyCalls))
+		return vs
+	}
+	if s.W.HasDecoy() {
+		m.stats.Count("requests-next-to-a-second-instance")
+	}
 	if len(st.Others) > 0 {
 		vs = append(vs, vio("C01", "other-session-changed|"+a.Kind, "request of b%d changed another browser's session: %v", a.B, st.Others))
 	}
@@ -177,7 +186,7 @@ func c01Templates() []sim.Template {
 func init() {
 	register(&Check{
 		ID: "C01", Level: "exploration",
-		Rule:  "seeded random histories (25-55 requests, 3 browsers, 3-4 accounts) over random module subsets/load orders/modes; after EVERY request the browser's session uid is compared with the value before; a change to U must be justified by the ledger (valid password by bcrypt equivalence, unspent OTP, live remember cookie, live unexpired recovery token + login-after-recovery, OAuth2 callback with the session's unspent state and provider-reported identity, own registration, 2FA step of a justified pending login). distinct_nontrivial = number of distinct (flow, credential class, account state, session state, mode, uid outcome) signatures observed.",
+		Rule:  "seeded random histories (25-55 requests, 3 browsers, 3-4 accounts) over random module subsets/load orders/modes; after EVERY request the browser's session uid is compared with the value before; a change to U must be justified by the ledger (valid password by bcrypt equivalence, unspent OTP, live remember cookie, live unexpired recovery token + login-after-recovery, OAuth2 callback with the session's unspent state and provider-reported identity, own registration, 2FA step of a justified pending login). A third of the worlds have a second, differently configured Authboss instance in the same process, initialised afterwards: a request that causes any backend call on THAT instance is a violation (the credential was checked against another instance's storage). distinct_nontrivial = number of distinct (flow, credential class, account state, session state, mode, uid outcome) signatures observed.",
 		Units: func(t string) int { return tierN(t, 600, 30000) },
 		Run: func(c *RunCtx, unit int) {
 			r := Rng(c.Seed, "C01", unit)
@@ -194,7 +203,7 @@ func init() {
 			sim.RunHistory(s, c01Profile, []sim.Monitor{c01mon{c.Stats}}, c.Stats, unit)
 		},
 		Floors: func(t string) map[string]int {
-			return map[string]int{"uid-set:login": 20, "uid-set:otp_login": 3, "uid-set:remember-cookie": 3, "uid-set:recover-login": 2, "uid-set:oauth2": 5, "uid-set:register": 3, "uid-set:2fa-step": 3}
+			return map[string]int{"uid-set:login": 20, "uid-set:otp_login": 3, "uid-set:remember-cookie": 3, "uid-set:recover-login": 2, "uid-set:oauth2": 5, "uid-set:register": 3, "uid-set:2fa-step": 3, "requests-next-to-a-second-instance": 1000}
 		},
 		Assumptions: []string{
 			"storer/session/cookie stores are the harness' (copying DB, server-side sessions keyed by a sid cookie, real Set-Cookie); an integrator's stores may differ",
